@@ -170,7 +170,13 @@ class Engine(Interp):
                 ms.asked = tuple((pos(lo), pos(hi)) for lo, hi in ms.asked)
                 ms.asked_carry = None
         if s2.aux:
-            s2.aux = tuple((pos(h), pos(l), pos(d)) for h, l, d in s2.aux)
+            # keep the auxiliary differences whose two terms are still held by some value (by identity: a
+            # difference is a fact about two particular terms), under the canonical names of those values
+            keep = []
+            for h, l, d in s2.aux:
+                if h in first_alias and l in first_alias and not any(h is h2 and l is l2 for h2, l2, _ in keep):
+                    keep.append((h, l, d))
+            s2.aux = tuple((first_alias[h], first_alias[l], pos(d)) for h, l, d in keep[-8:])
         for k in sorted(s2.ghost, key=str):
             g = s2.ghost[k]
             s2.ghost[k] = (pos(g[0]), g[1])
